@@ -3,6 +3,7 @@
 from hypothesis import strategies as st
 
 from pv import gen, model
+from pv import core
 from pv.core import Fail, Res, Sub, digest
 
 PROPERTY = "C19"
@@ -47,6 +48,7 @@ def check_name(name, key, idx, ident=""):
 
 
 def o_msg(case):
+    core.note_input(len(case.get("payload", "")) // 2 + 1000)  # one message and its attribute names: a bounded amount of helper work
     from pyrtcm import RTCMMessage
 
     p = bytes.fromhex(case["payload"])
@@ -92,6 +94,7 @@ def plan_msg(tier, shard, nshards):
 
 def o_static(case):
     """one identity: every field key at its definition depth with synthetic 1/2/3-digit indices"""
+    core.note_input(1000)  # the names of one definition: a bounded amount of helper work
     ident = case["ident"]
     d = model.definition(ident)
     digs = []
